@@ -293,7 +293,18 @@ func init() {
 		}
 	}
 	register(c12)
-	register(histProfile("C02", []string{"C02"}, 800, 40000, histOpts{maxNodes: 6, pCanary: 0.5, fancy: []float64{0, 0.3, 0.7}, faults: true, sane: true, c02: true, migration: true, someOverrides: true, neverReady: true}, "C02.converged"))
+	c02 := histProfile("C02", []string{"C02"}, 800, 40000, histOpts{maxNodes: 6, pCanary: 0.5, fancy: []float64{0, 0.3, 0.7}, faults: true, sane: true, c02: true, migration: true, someOverrides: true, neverReady: true}, "C02.converged")
+	c02gen := c02.Gen
+	c02.Gen = func(r *rand.Rand, tier string, idx int) *World {
+		w := c02gen(r, tier, idx)
+		if chance(r, 0.15) {
+			// the manifest the user applies names its pod template (a pasted Pod manifest): every
+			// template change carries the name again, on an object that is otherwise defaulted
+			w.Extra["namedEdits"] = "1"
+		}
+		return w
+	}
+	register(c02)
 }
 
 // ---------------------------------------------------------------------------------------
